@@ -1,11 +1,11 @@
 (* C32 proofs: text -> parse_json -> to_jsonb_bytes -> JsonbView read-back, composed. *)
 From Coq Require Import ZArith List Bool.
-From TV Require Import Lib.MachInt Model.Jsonb Model.JsonText Model.JsonGrammar Proof.JsonbTop Proof.JsonText.
+From TV Require Import Lib.MachInt Model.Jsonb Model.JsonText Model.JsonGrammar Proof.JsonbTop Proof.JsonbTryBuild Proof.JsonText.
 Import ListNotations.
 Open Scope Z_scope.
 
 Lemma text_jsonb_roundtrip_l :
-  forall (num_of : list Z -> res Z) d, dj_ok num_of false d = true -> fits (erase d) = true ->
+  forall (num_of : list Z -> res Z) d, dj_ok num_of d = true -> fits (erase d) = true ->
   exists v n, parse_json num_of (render d) = Ok (v, n) /\
               tree_of_view (S (depth v)) (encode_value v) = Ok (canon (erase d)) /\
               jequiv (erase d) (canon (erase d)).
@@ -13,4 +13,18 @@ Proof.
   intros num_of d Hok Hfit. destruct (parse_json_ok_l num_of d Hok) as [Hp _].
   exists (erase d), (blen (render d) - blen (trail d)).
   split; [exact Hp|]. split; [apply roundtrip_l; exact Hfit|apply canon_equiv_l].
+Qed.
+
+Lemma text_try_build_roundtrip_l :
+  forall (num_of : list Z -> res Z) d, dj_ok num_of d = true -> typed (erase d) = true ->
+  exists v n, parse_json num_of (render d) = Ok (v, n) /\ v = erase d /\
+              (try_build v = Err \/
+               exists b, try_build v = Ok b /\ tree_of_view (S (depth v)) b = Ok (canon v) /\ jequiv v (canon v)).
+Proof.
+  intros num_of d Hok Ht. destruct (parse_json_ok_l num_of d Hok) as [Hp _].
+  exists (erase d), (blen (render d) - blen (trail d)). split; [exact Hp|]. split; [reflexivity|].
+  destruct (fits (erase d)) eqn:Hf.
+  - right. exists (encode_value (erase d)). split; [apply try_build_fits_l; exact Hf|].
+    split; [apply roundtrip_l; exact Hf|apply canon_equiv_l].
+  - left. apply try_build_refuses_l; assumption.
 Qed.
